@@ -395,3 +395,91 @@ func init() {
 		}
 	}
 }
+
+func init() {
+	extraScripts["utable"] = func(s *exec.State, rec abs.V) {
+		s.Reset()
+		if rec["unit"] == "rle" {
+			s.RleTable(abs.I(rec["start"]))
+		} else {
+			s.UnitTable(rec["unit"].(string), abs.I(rec["start"]))
+		}
+	}
+	extraOps["utable"] = func(s *exec.State, ev abs.V) { s.UnitTable(ev["entry"].(string), abs.I(ev["start"])) }
+	extraOps["rletable"] = func(s *exec.State, ev abs.V) { s.RleTable(abs.I(ev["start"])) }
+	extraOps["sweep"] = func(s *exec.State, ev abs.V) { s.Sweep(ev["entry"].(string), uint64(abs.I(ev["stride"]))) }
+	// unit rejections and limits (C16): short and wrong-version headers, counts above 31,
+	// short sub-structures; random unit values both ways
+	drivers["units"] = func(s *exec.State, g *gen.G, n int) {
+		s.Reset()
+		for l := 0; l < 4; l++ {
+			for _, first := range []int{0x00, 0x40, 0x80, 0xC0, 0xBF, 0x9F} {
+				b := []byte{byte(first), 200, 0, 1}[:l]
+				s.SetBuf(1, b)
+				s.UnitDecode("hdr", 1)
+			}
+		}
+		for _, v := range []int{0, 1, 3} {
+			s.SetBuf(1, []byte{byte(v<<6 | 1), 201, 0, 7})
+			s.UnitDecode("hdr", 1)
+		}
+		for c := 0; c < 256; c++ {
+			s.UnitEncode("hdr", abs.V{"p": c%2 == 0, "c": c, "t": 200 + c%8, "len": c * 257 % 65536}, 1)
+		}
+		for l := 0; l < 26; l++ {
+			s.SetBuf(1, randBytes(g, l))
+			s.UnitDecode("rb", 1)
+		}
+		for l := 0; l <= 3; l++ {
+			for k := 0; k < 4; k++ {
+				s.SetBuf(1, randBytes(g, l))
+				s.UnitDecode("rl", 1)
+				s.UnitDecode("sv", 1)
+				s.UnitDecode("delta", 1)
+			}
+		}
+		for i := 0; i < n; i++ {
+			if i%50 == 0 {
+				s.Reset()
+			}
+			switch g.R.Intn(6) {
+			case 0:
+				s.UnitEncode("rb", g.RB(), 1)
+				s.UnitDecode("rb", 1)
+			case 1:
+				rb := g.RB()
+				rb["lost"] = abs.L{g.Pick(0, 0, 1, 255), g.U8(), g.U8(), g.U8()}
+				s.UnitEncode("rb", rb, 1)
+			case 2:
+				s.UnitEncode("item", g.Item(), 1)
+				s.UnitDecode("item", 1)
+			case 3:
+				s.UnitEncode("chunk", g.Chunk(), 1)
+				s.UnitDecode("chunk", 1)
+			case 4:
+				t := g.Pick(1, 2)
+				tk := g.Pick(-40000, -32769, -32768, -1, 0, 1, 255, 256, 32767, 32768, 40000, g.Int(-33000, 33000))
+				s.UnitEncode("delta", abs.V{"t": t, "ticks": tk, "rem": 0}, 1)
+				if s.Buf[1] != nil {
+					s.UnitDecode("delta", 1)
+				}
+			case 5:
+				s.UnitEncode("hdr", abs.V{"p": g.Bool(), "c": g.Pick(0, 1, 30, 31, 32, 33, 255, g.R.Intn(32)), "t": g.U8(), "len": g.U16()}, 1)
+				if s.Buf[1] != nil {
+					s.UnitDecode("hdr", 1)
+				}
+			}
+		}
+	}
+	drivers["sweeps"] = func(s *exec.State, g *gen.G, n int) {
+		// n is the stride divisor: n = 1 exhaustive; quick tiers pass a large stride
+		s.Reset()
+		stride := uint64(n)
+		s.Sweep("loss24", (stride+255)/256)
+		for _, name := range []string{"header32", "nack32", "sli32", "nackequiv32"} {
+			s.Sweep(name, stride)
+		}
+		s.Sweep("rembscale24", (stride+255)/256)
+		s.Sweep("fir40", stride*251*257+1)
+	}
+}
